@@ -71,6 +71,11 @@ class Rewriter(ast.NodeTransformer):
             self.n += 1
             node.func = ast.copy_location(_hv(f.id + '_'), f)
             return node
+        if isinstance(f, ast.Attribute) and isinstance(f.value, ast.Name) and f.value.id == 'math' and f.attr in ('isfinite', 'isnan', 'isinf', 'ceil', 'floor') \
+                and 'math' not in self.shadowed:
+            self.n += 1
+            node.func = ast.copy_location(_hv('math_' + f.attr), f)
+            return node
         if isinstance(f, ast.Attribute) and isinstance(f.value, ast.Constant) and isinstance(f.value.value, str):
             if any(isinstance(a, ast.Starred) for a in node.args) or any(k.arg is None for k in node.keywords):
                 return node
